@@ -10,28 +10,32 @@
 (*  I2 a lighthouse holds for x only what x reported / was seen at                                                *)
 (*  I3 whatever a node is then permitted to send (R5) goes to a usable address of the peer it is meant for        *)
 (*  I6 punch permits (R6) come only from the configured lighthouse and only for usable, true addresses            *)
+(* With Strict = FALSE (the default reading of the trace check) a replayed stage 1 and a wrong responder break I1/I2:    *)
+(* that is the finding reported for handshake_manager.go beginHandshake / continueHandshake (SetRemote on the shared   *)
+(* list before the handshake is accepted); the model is checked with Strict = TRUE.                                 *)
 (* Honest peers are represented by what the emission rules let them send (R1/R2: a lighthouse answers from its   *)
 (* cache, an ordinary node reports its own addresses), the network does not forge source addresses of honest    *)
 (* nodes. All tunnels are up; a close is modelled as close-and-reopen.                                           *)
 EXTENDS Discovery
 
-CONSTANTS TrackB      \* BOOLEAN: explore B's table too (thorough tier)
+CONSTANTS Strict,     \* BOOLEAN: a stage 1 that makes no tunnel is no writer of the learned slot (see Discovery.tla IsAuth)
+          TrackB      \* BOOLEAN: explore B's table too (manual runs only: > 90 000 states, 25 min were not enough)
 
 MCNodes == {"A", "B", "L", "H"}
 Subj == {"A", "B", "H"}
 SubjOf(n) == IF TrackB THEN Subj \ {n} ELSE {"B", "H"}      \* whom the explored tables are about
-Under == {"a1", "b1", "b2", "b3", "h1", "e1"}                     \* e1: an address H invents
+Under == (IF TrackB THEN {"a1"} ELSE {}) \cup {"b1", "b2", "b3", "h1", "e1"}    \* e1: an address H invents
 Home == [n \in MCNodes |-> IF n = "A" THEN {"a1"} ELSE IF n = "B" THEN {"b1", "b2", "b3"} ELSE IF n = "L" THEN {"l1"} ELSE {"h1"}]
 Sock == [n \in MCNodes |-> IF n = "A" THEN {"a1"} ELSE IF n = "B" THEN {"b1"} ELSE IF n = "L" THEN {"l1"} ELSE {"h1"}]
 Truth(x) == IF x = "H" THEN Under \cup {"l1"} ELSE Home[x]
 MCCfg == [amlh |-> {"L"}, lhs |-> {<<"A", "L">>, <<"B", "L">>, <<"H", "L">>}, hostile |-> {"H"},
           deny |-> {<<"A", "b2">>, <<"L", "b3">>, <<"B", "e1">>}, denyPeer |-> {<<"B", "A", "h1">>},
           static |-> {<<"A", "L", "l1">>, <<"B", "L", "l1">>, <<"A", "L", "b2">>},
-          adv |-> {<<"A", "a1">>, <<"B", "b1">>, <<"B", "b2">>, <<"B", "b3">>}, respond |-> {"A"}]
+          adv |-> {<<"A", "a1">>, <<"B", "b1">>, <<"B", "b2">>, <<"B", "b3">>}, respond |-> {"A"}, strict |-> Strict]
 Tracked == IF TrackB THEN {"A", "B", "L"} ELSE {"A", "L"}
 Honest == MCNodes \ {"H"}
 
-Rec(k, from, src, mt, x, addrs) == [k |-> k, from |-> from, src |-> src, mt |-> mt, x |-> x, addrs |-> addrs, alist |-> <<>>]
+Rec(k, from, src, mt, x, addrs) == [k |-> k, from |-> from, src |-> src, mt |-> mt, x |-> x, addrs |-> addrs, alist |-> <<>>, fresh |-> TRUE]
 LhTypes == {"HostQuery", "HostQueryReply", "HostUpdateNotification", "HostUpdateNotificationAck", "HostPunchNotification"}
 HClaims == {{}, {"e1"}}
 One(S) == {{}} \cup {{u} : u \in S}
@@ -40,17 +44,26 @@ HostileStim == {Rec("enc", "H", "h1", t, x, a) : t \in LhTypes, x \in {"B", "H",
                \cup {Rec(k, "H", s, "data", "", {}) : k \in {"enc", "hs1"}, s \in Sock["H"]}
                \cup {Rec("hs2", "H", s, "", x, {}) : s \in Sock["H"], x \in {"B", "H"}}      \* H answers a handshake meant for B
 
-\* what honest s may send to n (emission rules R1/R2 of s), from where s really is
-HonestFrom(n, s) ==
+\* what an honest ordinary node s may send (emission rule R1 of s: it reports its own addresses), from where s really is
+MCAdv(s) == {p[2] : p \in {q \in MCCfg.adv : q[1] = s}}
+OrdinaryFrom(s) ==
     {Rec(k, s, u, "data", "", {}) : k \in {"enc", "hs1"}, u \in Sock[s]} \cup {Rec("hs2", s, u, "", s, {}) : u \in Sock[s]}
-    \cup (IF s \in MCCfg.amlh
-          THEN UNION {{Rec("enc", s, "l1", t, x, a) : t \in {"HostQueryReply", "HostPunchNotification"}, a \in One(Cache(known[s], x))} : x \in SubjOf(s)}
-               \cup {Rec("enc", s, "l1", "HostUpdateNotificationAck", "", {})}
-          ELSE UNION {{Rec("enc", s, u, "HostUpdateNotification", x, a) : x \in {"", s}, a \in One(Adv(s))} : u \in Sock[s]}
-               \cup {Rec("enc", s, u, "HostQuery", x, {}) : x \in Subj, u \in Sock[s]})
+    \cup UNION {{Rec("enc", s, u, "HostUpdateNotification", x, a) : x \in {"", s}, a \in One(MCAdv(s))} : u \in Sock[s]}
+    \cup {Rec("enc", s, u, "HostQuery", "B", {}) : u \in Sock[s]}
+\* what the honest lighthouse s may send (emission rule R2 of s: answers and punch notifications from its cache)
+LighthouseFrom(s) ==
+    {Rec(k, s, u, "data", "", {}) : k \in {"enc", "hs1"}, u \in Sock[s]} \cup {Rec("hs2", s, u, "", s, {}) : u \in Sock[s]}
+    \cup UNION {{Rec("enc", s, "l1", t, x, a) : t \in {"HostQueryReply", "HostPunchNotification"}, a \in One(Cache(known[s], x))} : x \in SubjOf(s)}
+    \cup {Rec("enc", s, "l1", "HostUpdateNotificationAck", "", {})}
 
-StimFor(n) == HostileStim \cup UNION {HonestFrom(n, s) : s \in Honest \ {n}}
-              \cup {Rec("close", "", "", "", x, {}) : x \in MCNodes \ {n}} \cup {Rec("tick", "", "", "", "", {})}
+\* the network replays a stage 1 of honest B from an address B never had: it is refused (no tunnel, fresh = FALSE)
+ReplayedStage1 == {[Rec("hs1", "B", "e1", "data", "", {}) EXCEPT !.fresh = FALSE]}
+
+\* the part of the stimuli that does not depend on the state (a constant: TLC builds it once) ...
+ConstStim == HostileStim \cup OrdinaryFrom("A") \cup OrdinaryFrom("B") \cup ReplayedStage1
+             \cup {Rec("close", "", "", "", x, {}) : x \in MCNodes} \cup {Rec("tick", "", "", "", "", {})}
+\* ... and the part that does: what the lighthouse says now
+StimFor(n) == ConstStim \cup (IF n = "L" THEN {} ELSE LighthouseFrom("L"))
 
 Entries(n) == {<<x, o, kd, u>> : x \in SubjOf(n), o \in MCNodes, kd \in {"rep", "lrn"}, u \in Under} \cup {<<"B", "B", "blk", "h1">>}
 
@@ -59,11 +72,19 @@ Init == /\ StartState(MCCfg)
 
 \* all tunnels are up (tuns is not part of the explored state: a close is close-and-reopen)
 Peers(n) == MCNodes \ {n}
-Next == \E n \in Tracked : \E S \in StimFor(n) : \E e \in Entries(n) :
-          LET T2 == IF S.k = "close" THEN Peers(n) \ {S.x} ELSE Peers(n) IN
-          /\ \/ e \notin known[n] /\ AddOK(n, S, known[n] \cup {e}, e) /\ known' = [known EXCEPT ![n] = @ \cup {e}]
-             \/ e \in known[n] /\ DelOK(n, S, Peers(n), T2, {}, {}, known[n] \ {e}, e) /\ known' = [known EXCEPT ![n] = @ \ {e}]
-          /\ UNCHANGED <<cfg, tuns, pend, wanted, sched, resp, asked, ever>>
+\* (the stimulus is quantified inside the guard: one successor per accepted change, whatever stimuli permit it;
+\*  SS is passed as an argument so that TLC builds the stimulus set once per node and state)
+NextOf(n, LS) == \E e \in Entries(n) :
+          /\ \/ /\ e \notin known[n]
+                /\ TRUE = (\/ \E S \in ConstStim : AddOK(n, S, known[n] \cup {e}, e)
+                           \/ \E S \in LS : AddOK(n, S, known[n] \cup {e}, e))
+                /\ known' = [known EXCEPT ![n] = @ \cup {e}]
+             \/ /\ e \in known[n]
+                /\ TRUE = (\/ \E S \in ConstStim : DelOK(n, S, Peers(n), IF S.k = "close" THEN Peers(n) \ {S.x} ELSE Peers(n), {}, {}, known[n] \ {e}, e)
+                           \/ \E S \in LS : DelOK(n, S, Peers(n), Peers(n), {}, {}, known[n] \ {e}, e))
+                /\ known' = [known EXCEPT ![n] = @ \ {e}]
+          /\ UNCHANGED <<cfg, tuns, pend, wanted, sched, resp, asked, ever, refused>>
+Next == \E n \in Tracked : NextOf(n, IF n = "L" THEN {} ELSE LighthouseFrom("L"))
 Spec == Init /\ [][Next]_vars
 
 \* keep the world small: at most SlotMax addresses per (subject, owner, kind) slot
@@ -73,7 +94,7 @@ SlotBound == \A n \in Tracked : \A e \in known[n] : Cardinality({f \in known[n] 
 -----------------------------------------------------------------------------
 I1 == \A n \in Tracked : \A e \in known[n] :
          \/ e \in StaticOf(n)
-         \/ e[3] = "blk" \/ (e[3] = "lrn" /\ e[4] \in Blocked(known[n], e[1]))   \* a wrong responder's address: held, but blocked
+         \/ e[3] = "blk"                                       \* a blocked address is no destination
          \/ /\ e[2] \in Lhs(n) \cup {e[1]}                     \* told by a configured lighthouse, or by x itself
             /\ e[4] \in Truth(e[1])                            \* chain ends at the owner
             /\ Usable(n, e[1], e[4])
